@@ -142,6 +142,20 @@ def st_json_doc(draw: st.DrawFn, n: int, valid: bool) -> bytes:
     if valid:
         if n == 1:
             return draw(st.sampled_from([b"0", b"7"]))
+        if n >= 4 and draw(st.integers(0, 3)) == 0:
+            # a string (alone, or inside an array / object) whose body is made of escaped backslashes and escaped quotes:
+            # runs of backslashes of either parity directly before a quote, including before the closing one
+            units = draw(st.lists(st.sampled_from([b"a", b"\\\\", b'\\"']), max_size=min(n, 24)))
+            wrap = draw(st.sampled_from([(b"", b""), (b"[", b"]"), (b'{"k":', b"}"), (b'{', b':0}')]))
+            room = n - 2 - len(wrap[0]) - len(wrap[1])
+            if room < 0:
+                wrap, room = (b"", b""), n - 2
+            body = b""
+            for u in units:
+                if len(body) + len(u) > room:
+                    break
+                body += u
+            return wrap[0] + b'"' + b"a" * (room - len(body)) + body + b'"' + wrap[1]
         v = draw(zoo.st_json_value(ascii_only=True, max_leaves=4))
         d = json.dumps(v, separators=(",", ":")).encode("ascii")
         if len(d) == n:
